@@ -18,7 +18,27 @@ from harness.props.session import with_cc, norm_outcome, model_case, MODEL_FUEL
 from harness.gen.sessions import gen_case, SidCounter
 from harness.driver import run_model
 
-ALL_MODES = ["loop", "app", "tame", "c01", "c10", "c10modal", "flat", "waitraise", "c02"]
+ALL_MODES = ["loop", "app", "tame", "c01", "c10", "c10modal", "flat", "waitraise", "c02", "fqh"]
+
+
+def gen_fqh(rnd, sid):
+    """force_quit() called from a handler while further handlers are registered for the same class (and for the classes of signals being dispatched at outer
+    nesting levels: the force-quitting handler may run inside a processing call / nested loop opened by a handler that has successors too)"""
+    ncls = rnd.randint(1, 2); handlers = []
+    def enq(): return ["enq", "U%d" % rnd.randrange(ncls), rnd.choice([0, 0, 1, -1]), None, sid.next()]
+    def script(k):
+        if k == "fq": return [a for a in ([enq()] if rnd.random() < 0.3 else [])] + [["force_quit"]] + [rnd.choice([enq(), ["proc", None], ["new_loop", "U0", 0, sid.next()], ["close_loop"]]) for _ in range(rnd.choice([0, 0, 1, 2]))]
+        if k == "nest": return [enq(), rnd.choice([["proc", None], ["proc", "U%d" % rnd.randrange(ncls)], ["new_loop", "U%d" % rnd.randrange(ncls), 0, sid.next()]])]
+        return [enq() for _ in range(rnd.choice([0, 0, 1]))]
+    for c in range(ncls):
+        n = rnd.randint(2, 4); quitter = rnd.randrange(n - 1)          # never the last one: somebody is registered behind it
+        for i in range(n):
+            kinds = ["fq" if (i == quitter and rnd.random() < 0.8) else rnd.choice(["plain", "plain", "nest"]) for _ in range(rnd.randint(1, 4))]
+            if i == quitter and c == 0 and "fq" not in kinds: kinds[rnd.randrange(len(kinds))] = "fq"
+            handlers.append(dict(cls="U%d" % c, hid=len(handlers), data=rnd.choice([None, 7]), scripts=[script(k) for k in kinds]))
+    init = [enq() for _ in range(rnd.randint(1, 5))]
+    return dict(op="machine", mode="loop", width=80, screens=[], handlers=handlers, init=init, stdin=[], quit_cb=rnd.choice([None, 9]), quit_screen=None,
+                exc_handler=rnd.random() < 0.3, run_empty=True, deliver_at=[])
 
 
 def gen(mode, rnd, sid):
@@ -33,6 +53,7 @@ def gen(mode, rnd, sid):
         from harness.props.C02 import gen_c02; c = gen_c02(rnd, sid)
     elif mode == "flat":
         from harness.props.C20 import gen_flat; c = gen_flat(rnd, sid)
+    elif mode == "fqh": c = gen_fqh(rnd, sid)
     elif mode == "waitraise":
         from harness.props.C20 import gen_wait_raise; c = gen_wait_raise(rnd, sid)
     else: raise SystemExit("unknown mode " + mode)
